@@ -50,8 +50,6 @@ import struct
 
 import numpy as np
 
-SQRT2 = 2 ** 0.5
-
 
 def is_complex(mtype):
     return mtype > 2
